@@ -248,9 +248,13 @@ def _episode(g, gs0, sup, ep, eo: EpisodeOut, clock, const, plan):
     def sl(i):
         return slow[i] if i < len(slow) else None
 
+    to = ep.get("timeout")  # optional timeout argument of reset()/run()/stop() (virtual seconds)
+    if to:
+        K.count("timeout_args")
+
     try:
         if ep["api"] == "gym":
-            gs, ss = _call(eo, "reset", g.reset, gs_init, budget=budget, slow=sl(0))
+            gs, ss = _call(eo, "reset", (lambda s_: g.reset(s_, timeout=to)) if to else g.reset, gs_init, budget=budget, slow=sl(0))
             eo.obs.append(obs_digest(ss))
             ov = (list(ep.get("override") or []) + [False] * ep["nsteps"])[: ep["nsteps"]]
             for i in range(ep["nsteps"]):
@@ -272,7 +276,7 @@ def _episode(g, gs0, sup, ep, eo: EpisodeOut, clock, const, plan):
         elif ep["api"] == "run":
             gs = gs_init
             for i in range(ep["nsteps"]):
-                gs = _call(eo, "run", g.run, gs, budget=budget, slow=sl(i))
+                gs = _call(eo, "run", (lambda s_: g.run(s_, timeout=to)) if to else g.run, gs, budget=budget, slow=sl(i))
             extra = 0
             while ep.get("until_active") and ep["nsteps"] > 0 and extra < 15 and not _all_active(gs):
                 gs = _call(eo, "run", g.run, gs, budget=budget)
@@ -286,7 +290,7 @@ def _episode(g, gs0, sup, ep, eo: EpisodeOut, clock, const, plan):
         ending = ep.get("ending", "stop")
         if ending in ("stop", "stop2"):
             _probe_stop(g, sup)
-            _call(eo, "stop", g.stop, budget=budget, slow=sl(ep["nsteps"] + 1))
+            _call(eo, "stop", (lambda: g.stop(timeout=to)) if to else g.stop, budget=budget, slow=sl(ep["nsteps"] + 1))
             eo.stopped = True
             if ending == "stop2":
                 _call(eo, "stop", g.stop, budget=budget)
